@@ -74,8 +74,17 @@ let run_mv (toks : string list) : string =
              bad := Printf.sprintf " MODEL-DISAGREE(object %d: faithful model leaves canonical form: slack_ok=%b normal=%b)" i (c_slack_ok k c) (c_normal k (rk_of cord) c)) cpool);
       if !bad <> "" then (Buffer.add_string buf !bad; bad := ""; cstate := None) in
     dump true;
+    let dest_of = function
+      | OAdd (d, _, _) | OSub (d, _, _) | OMul (d, _, _) | OAddMul (d, _, _) | OSubMul (d, _, _) -> Some d
+      | ONeg (d, _) | OAsg (d, _) | ODer (d, _) -> Some d
+      | OMulC (d, _, _) | OPow (d, _, _) | OShl (d, _, _) -> Some d
+      | OAddMon (d, _, _) -> Some d
+      | OOrd _ -> None in
+    (* the harness runs every writing operation first on fresh operands and prints that result after "~" *)
+    let fresh_text d = let (_, pool) = !rstate in Buffer.add_string buf ("~" ^ string_of_mpoly (List.nth pool (int_of_nat d))) in
     let apply (o : op) =
       rstate := ref_step k !rstate o;
+      (match dest_of o with Some d -> fresh_text d | None -> ());
       (match !cstate with
        | None -> ()
        | Some s -> (match c_step k fuel s o with
@@ -108,8 +117,9 @@ let run_mv (toks : string list) : string =
       | "shl" :: d :: a :: e :: t ->
         Buffer.add_string buf " ;";
         let (ord, pool) = !rstate in
-        if mp_top (rk_of ord) (List.nth pool (int_of_string a)) = None then Buffer.add_string buf "=skip";
-        apply (OShl (i_ d, i_ a, i_ e)); dump false; go t
+        if mp_top (rk_of ord) (List.nth pool (int_of_string a)) = None then Buffer.add_string buf "=skip"
+        else apply (OShl (i_ d, i_ a, i_ e));
+        dump false; go t
       | "addmon" :: d :: term :: t ->
         Buffer.add_string buf " ;";
         let (m, c) = raw_term term in
@@ -209,6 +219,7 @@ let run_mv (toks : string list) : string =
         else begin
           let r = mp_reductum (rk_of ord) p in
           rstate := (ord, set_nth (i_ d) r pool);
+          fresh_text (i_ d);
           reset_faithful (i_ d) r    (* not modelled in the faithful model: rebuilt from the reference value *)
         end;
         dump false; go t
@@ -218,6 +229,7 @@ let run_mv (toks : string list) : string =
         let p = List.nth pool (int_of_string a) in
         let r = mp_get_coeff (rk_of ord) (n_of_string kk) p in
         rstate := (ord, set_nth (i_ d) r pool);
+        fresh_text (i_ d);
         reset_faithful (i_ d) r;
         dump false; go t
       | "mgcd" :: t1 :: t2 :: t ->
